@@ -90,11 +90,15 @@ def usec_capable(lay):
     return "ut_tv" in lay["fields"] or "ll_tv" in lay["fields"]
 
 
-def record(lay, sec, usec, tok, idx):
-    """One plausible record for the layout with unique token `tok` (bytes, <=5 chars) in its string fields."""
+def record(lay, sec, usec, tok, idx, fat=False):
+    """One plausible record for the layout with unique token `tok` (bytes, <=5 chars) in its string fields.
+    fat: every string field is filled to its full width (no terminating NUL) and numeric fields are wide,
+    which makes the printed text as long as the layout allows."""
     f = lay["fields"]
     buf = bytearray(lay["size"])
     kind = lay["kind"]
+    if fat:
+        return _fat_record(lay, sec, usec, tok, idx)
     if kind in ("utmpx", "utmp_bsd"):
         if "ut_type" in f:
             up = lay["consts"].get("USER_PROCESS", 7)
@@ -150,6 +154,58 @@ def record(lay, sec, usec, tok, idx):
     else:
         raise ValueError(kind)
     return bytes(buf)
+
+
+def _fat_record(lay, sec, usec, tok, idx):
+    f = lay["fields"]
+    buf = bytearray(lay["size"])
+    kind = lay["kind"]
+
+    def full(name, lead):
+        off, sz = f[name]
+        s_ = (lead + tok + b"w" * sz)[:sz]
+        buf[off:off + sz] = s_
+    if kind in ("utmpx", "utmp_bsd"):
+        if "ut_type" in f:
+            _put(buf, f["ut_type"][0], f["ut_type"][1], lay["consts"].get("USER_PROCESS", 7))
+        if "ut_pid" in f:
+            _put(buf, f["ut_pid"][0], f["ut_pid"][1], 2147483000 + idx)
+        full("ut_line", b"p")
+        if "ut_id" in f:
+            full("ut_id", b"i")
+        full("ut_user" if "ut_user" in f else "ut_name", b"u")
+        full("ut_host", b"h")
+        if "ut_session" in f:
+            _put(buf, f["ut_session"][0], f["ut_session"][1], (1 << (8 * f["ut_session"][1] - 1)) - 1)
+        if "ut_exit" in f:
+            _put(buf, f["ut_exit"][0], f["ut_exit"][1], 0x7FFF7FFF & ((1 << (8 * f["ut_exit"][1])) - 1))
+        if "ut_addr_v6" in f:
+            buf[f["ut_addr_v6"][0]:f["ut_addr_v6"][0] + 16] = bytes([0xFE, 0x80] + [0xAB] * 14)
+        if "ut_tv.tv_sec" in f:
+            _put(buf, f["ut_tv.tv_sec"][0], f["ut_tv.tv_sec"][1], sec)
+            if "ut_tv.tv_usec" in f:
+                uo, us = f["ut_tv.tv_usec"]
+            else:
+                uo = f["ut_tv.tv_sec"][0] + f["ut_tv.tv_sec"][1]
+                us = f["ut_tv"][1] - f["ut_tv.tv_sec"][1]
+            _put(buf, uo, us, usec)
+        else:
+            _put(buf, f["ut_time"][0], f["ut_time"][1], sec)
+        return bytes(buf)
+    if kind == "lastlog":
+        _put(buf, f["ll_time"][0], f["ll_time"][1], sec)
+        full("ll_line", b"p")
+        full("ll_host", b"h")
+        return bytes(buf)
+    if kind == "lastlogx":
+        tv = lay["timeval"]["fields"]
+        base = f["ll_tv"][0]
+        _put(buf, base + tv["tv_sec"][0], tv["tv_sec"][1], sec)
+        _put(buf, base + tv["tv_usec"][0], tv["tv_usec"][1], usec)
+        full("ll_line", b"p")
+        full("ll_host", b"h")
+        return bytes(buf)
+    return record(lay, sec, usec, tok, idx)
 
 
 def tokens_of(tok):
